@@ -116,6 +116,122 @@ def judge(ctx, res, stream):
                               cv_checks.replay_of(r, kind='duplicate-entry', entries=dup))
 
 
+KF_CIRC_MIX = 'circ-copy-mixing'
+
+
+def _circ_peptide_readable(cvc, ids, pep) -> bool:
+    """classification only (Python): does `pep` occur in one of the three reading frames of the
+    molecule that carries exactly the NAMED records, read four times around the circle?  If so the
+    records the entry omits lie outside the stretch that encodes the peptide (they open or extend
+    the ORF, or move a cleavage site); if not, an omitted record changes the peptide's residues."""
+    from Bio.Seq import Seq
+    seq = cvc[2]
+    named = set(ids)
+    recs = []
+    for f in cvc[3].split(';'):
+        if not f:
+            continue
+        a = f.split(':')
+        vids = {int(x) for x in a[5].split('+')}
+        if vids <= named:
+            recs.append((int(a[0]), int(a[1]), a[3]))
+    last = len(seq) + 1
+    for s_, e_, alt in sorted(recs, reverse=True):
+        if e_ > last:
+            continue
+        seq = seq[:s_] + alt + seq[e_:]
+        last = s_
+    m = seq * 4
+    for fr in range(3):
+        sub = m[fr:]
+        sub = sub[:len(sub) - len(sub) % 3]
+        if pep in str(Seq(sub).translate()):
+            return True
+    return False
+
+
+def judge_circ(ctx, res, stream='circ-entries'):
+    """every (peptide, entry) pair whose backbone is the circRNA: Spec.witnessCirc (Lean) — the named
+    records, applied to the ONE molecule (every pass around the circle carries them), yield the
+    peptide.  Peptides outside the definition's set are C02's business (copy mixing is listed
+    there); for them no entry can be a witness."""
+    from . import cv_explore
+    lines, idx = [], []
+    for r in res:
+        if 'cvc' not in r or 'S' not in r or 'idmap' not in r:
+            continue
+        cid = r['circ_id']
+        n = 0
+        r['circ_problem'] = []
+        for seq_, hdrs in r['headers'].items():
+            for h in hdrs:
+                for entry in h.split(' '):
+                    if entry.split('|')[0] != cid:
+                        continue
+                    n += 1
+                    ids, sect, w2f, problem = cv_explore.parse_entry(entry, cid, r['idmap'], seq_)
+                    if not problem and sect:
+                        problem = 'the entry names a SECT event, the circle carries no annotated selenocysteine'
+                    if problem:
+                        r['circ_problem'].append((seq_, entry, problem))
+                        continue
+                    if seq_ not in r['S']:
+                        # no combination of the records yields the peptide on one molecule (C02 reports
+                        # it as unrealizable): its entry cannot be a witness either.  Listed class:
+                        # every pass around the circle carrying its own combination
+                        ctx.count(stream, 'peptide_outside_definition', 1)
+                        mixed = 'S_mixed' in r and seq_ in r['S_mixed']
+                        ctx.add_violation(
+                            f'header entry {entry} of peptide {seq_} is not a witness on the circRNA: no '
+                            f'combination of the records, applied to the one molecule, yields the peptide'
+                            + (' (it is one when every pass around the circle may carry its own combination)'
+                               if mixed else ''),
+                            {'kind': 'circ-witness', 'job': r.get('_job'), 'seed': r['seed'],
+                             'desc': r.get('desc'), 'peptide': seq_, 'entry': entry, 'cvc': r['cvc']},
+                            finding_key=cv_checks.KF_CIRC if mixed else None)
+                        continue
+                    lines.append('\t'.join(['S', 'wc'] + r['cvc'][2:10] + ['1' if w2f else '0',
+                                            ','.join(str(i) for i in ids), seq_]))
+                    idx.append((r, seq_, entry, len(ids)))
+        ctx.evaluated(stream, str(r['seed']), n > 0,
+                      {'seed': r['seed'], 'circ': cid, 'entries': n, 'desc': r.get('desc')})
+        ctx.count(stream, 'entries_checked', n)
+    outs = ctx.lean(lines)
+    if outs is None:
+        ctx.add_broken('correspondence', stream, 'native driver unavailable: Spec.witnessCirc not evaluated')
+        return
+    inv_cache = {}
+    for (r, seq_, entry, nids), o in zip(idx, outs):
+        ctx.count(stream, 'accepted' if o == 'yes' else 'rejected', 1)
+        if nids:
+            ctx.count(stream, 'entries_naming_records', 1)
+        if o == 'yes':
+            continue
+        how, key = '', None
+        if o.startswith('no:extra:') and o != 'no:extra:':
+            inv = inv_cache.setdefault(id(r), {n: k for k, n in r['idmap'].items()})
+            extra = [inv.get(int(x), x) for x in o[9:].split(',')]
+            how = f' (it becomes one when the records {extra} are added)'
+            named = [r['idmap'][p_] for p_ in entry.split('|')[1:-1] if p_ in r['idmap']]
+            if _circ_peptide_readable(r['cvc'], named, seq_):
+                # the known class: records outside the peptide that only let translation reach it
+                key = KF_FS
+            else:
+                how += '; an omitted record lies INSIDE the stretch that encodes the peptide'
+        elif o == 'no:none':
+            how = ' (no combination containing the named records yields it)'
+        ctx.add_violation(f'header entry {entry} of peptide {seq_} is not a witness on the circRNA: applying '
+                          f'exactly its variants to the one molecule and reading around the circle does '
+                          f'not yield the peptide as a digestion product{how}',
+                          {'kind': 'circ-witness', 'job': r.get('_job'), 'seed': r['seed'], 'desc': r.get('desc'),
+                           'peptide': seq_, 'entry': entry, 'lean': o, 'cvc': r['cvc']}, finding_key=key)
+    for r in res:
+        for seq_, entry, problem in r.get('circ_problem', [])[:3]:
+            ctx.add_violation(f'header entry {entry} of peptide {seq_}: {problem}',
+                              {'kind': 'circ-witness', 'job': r.get('_job'), 'seed': r['seed'],
+                               'desc': r.get('desc'), 'peptide': seq_, 'entry': entry})
+
+
 def run(ctx: common.Ctx):
     ctx.coverage['rule'] = (
         'same generated inputs as C01; EVERY (peptide, header entry) pair of every real FASTA is '
@@ -155,6 +271,9 @@ def run(ctx: common.Ctx):
     res = cv_checks.explore(ctx, ctx.n(70, 1500),
                             dict(base, exception=None, per_tx=(1, 4), as_frac=1.0, nested_frac=1.0))
     judge(ctx, res, 'nested-in-splicing')
+    # circRNA backbones: every entry whose backbone is the circle, through Spec.witnessCirc
+    bres = cv_checks.explore_backbone(ctx, 'circ', ctx.n(90, 1500), dict(exception=None))
+    judge_circ(ctx, [r for r in bres if 'lines' in r])
     # the same circRNA record in two GVF files: entry strings unique in the whole FASTA
     cv_checks.circ_dup_stream(ctx, ctx.n(60, 800))
     # small records on a fusion donor (main graph and fusion graph of one transcript number their
